@@ -799,7 +799,10 @@ def series_computation(
     all_blocks = [(i, j) for i in range(shape[0]) for j in range(shape[1])]
     diagonal = [(i, i) for i in range(shape[0])]
     zero_data = {block + zeroth_order: zero for block in all_blocks}
-    identity_data = {block + zeroth_order: one for block in diagonal}
+    identity_data = {
+        **zero_data,
+        **{block + zeroth_order: one for block in diagonal},
+    }
     data = {
         "zero_data": zero_data,
         "identity_data": identity_data,
